@@ -301,14 +301,26 @@ var $newType = (size, kind, string, named, pkg, exported, constructor) => {
                             return v[m.prop](...args);
                         };
                     };
+                    /* A promoted method is forwarded through the embedded field that provides
+                       it in the method set (the shallowest one), not through the first field
+                       that happens to have a method of that name. */
+                    var provides = (target, m) => {
+                        var ms = $methodSet(target);
+                        for (var i = 0; i < ms.length; i++) {
+                            if (ms[i].name === m.name) {
+                                return ms[i] === m;
+                            }
+                        }
+                        return false;
+                    };
                     fields.forEach(f => {
                         if (f.embedded) {
                             $methodSet(f.typ).forEach(m => {
-                                synthesizeMethod(typ, m, f);
-                                synthesizeMethod(typ.ptr, m, f);
+                                if (provides(typ, m)) { synthesizeMethod(typ, m, f); }
+                                if (provides(typ.ptr, m)) { synthesizeMethod(typ.ptr, m, f); }
                             });
                             $methodSet($ptrType(f.typ)).forEach(m => {
-                                synthesizeMethod(typ.ptr, m, f);
+                                if (provides(typ.ptr, m)) { synthesizeMethod(typ.ptr, m, f); }
                             });
                         }
                     });
